@@ -2,6 +2,8 @@
 import json
 from fractions import Fraction
 
+import warnings
+
 import numpy as np
 
 from harness.common import f2hex, hex2f, q2s, s2q, run_driver, lean_obligations, ulps
@@ -61,6 +63,11 @@ def run(ctx):
     from numdifftools import fornberg
     lean_obligations(ctx, MODULE, THEOREMS)
     rng = ctx.rng
+    # the very first call of this process works in single precision (whatever is allocated or remembered then must not decide the
+    # precision of the double-precision calls that follow)
+    with warnings.catch_warnings():
+        warnings.simplefilter('ignore')
+        fornberg.fd_weights_all(np.linspace(0, 1, 5, dtype=np.float32), np.float32(0.25), 2)
     cases = [gen_nodes(rng) for _ in range(ctx.budget(400, 4000))]
 
     # ---------------- engine `fornberg.float`: public fd_weights_all vs the Float instance of the model ------
@@ -150,6 +157,16 @@ def run(ctx):
         m = len(xs)
         ctx.tried((tuple(xs), x0, n) if m >= 3 else None)
         try:
+            if rng.random() < 0.4:
+                # the call before this one used almost the same nodes (jittered by 1e-9 .. 1e-7 relative), or the same nodes in single
+                # precision: what this call returns must not depend on it
+                with warnings.catch_warnings():
+                    warnings.simplefilter('ignore')
+                    jit = 10.0 ** rng.uniform(-9, -7)
+                    if rng.random() < 0.6:
+                        fornberg.fd_weights_all(np.array(xs) * (1 + jit), x0 * (1 + jit) if rng.random() < 0.5 else x0, n)
+                    else:
+                        fornberg.fd_weights_all(np.array(xs, dtype=np.float32), np.float32(x0), n)
             w = fornberg.fd_weights_all(np.array(xs), x0, n)
             ctx.keep('fd_weights_all', w, xs=list(map(float, xs)), x0=float(x0), n=n)
         except Exception as ex:
